@@ -8,6 +8,7 @@ from .collection import Collection
 from .filtering import filter_applies
 from mongomock import codec_options as mongomock_codec_options
 from mongomock import helpers
+from mongomock.not_implemented import raise_for_feature as raise_not_implemented
 from mongomock import read_preferences
 from mongomock import store
 
@@ -110,7 +111,7 @@ class Database(object):
         field_name = 'name'
 
         if session:
-            raise NotImplementedError('Mongomock does not handle sessions yet')
+            raise_not_implemented('session', 'Mongomock does not handle sessions yet')
 
         if filter:
             if not filter.get('name'):
@@ -152,7 +153,7 @@ class Database(object):
 
     def drop_collection(self, name_or_collection, session=None):
         if session:
-            raise NotImplementedError('Mongomock does not handle sessions yet')
+            raise_not_implemented('session', 'Mongomock does not handle sessions yet')
         # Like pymongo, only the name of a Collection argument is used.
         if isinstance(name_or_collection, Collection):
             name_or_collection = name_or_collection.name
@@ -176,6 +177,10 @@ class Database(object):
         if name in self._get_created_collections():
             raise CollectionInvalid('collection %s already exists' % name)
 
+        for feature in ('session', 'collation', 'array_filters', 'let'):
+            if kwargs.pop(feature, None):
+                raise_not_implemented(
+                    feature, 'Mongomock does not handle the %s option yet' % feature)
         if kwargs:
             raise NotImplementedError('Special options not supported')
 
@@ -205,7 +210,7 @@ class Database(object):
 
     def dereference(self, dbref, session=None):
         if session:
-            raise NotImplementedError('Mongomock does not handle sessions yet')
+            raise_not_implemented('session', 'Mongomock does not handle sessions yet')
 
         if not hasattr(dbref, 'collection') or not hasattr(dbref, 'id'):
             raise TypeError('cannot dereference a %s' % type(dbref))
